@@ -144,6 +144,14 @@ def build_wall_case(c):
             sides[0]["name"], sides[0]["cons"] = "TEST", uid("cons-T")
         else:
             roof["name"], roof["cons"], roof["bounds"] = "TEST", uid("cons-T"), "GROUND"
+        if c["next"] != "none":
+            # the west side borders another space (conditioned or not): part of the exposed perimeter only when this space
+            # is conditioned and the other is not
+            sides[3]["bounds"], sides[3]["next_to"] = "INTERIOR", s2
+            sp2 = {"id": s2, "name": "S2", "height": 3.0, "kind": KIND[c["next"]], "loads": None, "thermostat": None, "n_v": 0.5}
+            if c["next"] == "C":
+                del sp2["kind"]
+            spaces.append(sp2)
         walls = sides + [slab, roof]
         # keep the net height of the wall cases at storey - 0.2 (roof REF): the buried roof case has its own stack
     else:
@@ -261,9 +269,12 @@ def run_uvalue(prop, tier, replay=None):
         winc = [c for c in cases if c["kind"] == "win"]
         if quick and payload is None:
             # quick: every corner case (frame fraction 0 or 1, unresolved glazing or frame) and 1 in 12 of the rest
-            corner = lambda c: (c["w"]["ff"] in (0, 100) and (c["w"]["glass"] != "ok" or c["w"]["frame"] != "ok")) or \
-                (c["w"]["g"] in (0, 100) and c["w"]["ff"] == 20 and c["w"]["du"] == 10 and c["w"]["ug"] == 110 and c["w"]["uf"] == 320) or \
-                (c["w"]["gsh"] in (0, 100) and c["w"]["ff"] == 20 and c["w"]["du"] == 10 and c["w"]["ug"] == 110 and c["w"]["uf"] == 320)
+            # quick: every corner case (frame fraction 0 or 1 with unresolved glazing or frame), every case that differs from a
+            # typical construction in at most two parameters (so that every value of every parameter, extremes included, and
+            # every pair of values is exercised), and 1 in 12 of the rest
+            typical = {"ff": 20, "du": 10, "ug": 110, "uf": 320, "g": 60, "gsh": -1, "glass": "ok", "frame": "ok"}
+            ndiff = lambda c: sum(1 for k, v in typical.items() if c["w"][k] != v)
+            corner = lambda c: (c["w"]["ff"] in (0, 100) and (c["w"]["glass"] != "ok" or c["w"]["frame"] != "ok")) or ndiff(c) <= 2
             winc = [c for i, c in enumerate(winc) if corner(c) or (i * 7 + seed()) % 12 == 0]
         reqs, meta = [], []
         discarded = 0
